@@ -2,7 +2,7 @@
 //! speed strain evaluators (`lean/RosuModel/Model/OsuSkill.lean`, evaluated by the driver with IEEE
 //! doubles and `f32` roundings) against the real code through the hook `osu::verif::skill_probe`.
 //!
-//! One probe = four request lines (`obj`, `aim`, `fl`, `spd`) carrying the same raw object list (what
+//! One probe = five request lines (`obj`, `aim`, `fl`, `spd`, `rhy`) carrying the same raw object list (what
 //! the constructor / evaluators read of every `OsuObject` after `convert_objects` and the slider cursor
 //! pass) and the header (clock rate, scaling factor, radius, time_preempt, fade-in with/without HD,
 //! hit window); the response is every constructed field resp. evaluator output per difficulty object.
@@ -84,6 +84,7 @@ fn response(group: &str, p: &SkillProbe, n_diff: usize) -> String {
                 toks.push(format!("f{i}={}", showf(d.flashlight)));
                 toks.push(format!("h{i}={}", showf(d.flashlight_hidden)));
             }
+            "rhy" => toks.push(format!("r{i}={}", showf(d.rhythm))),
             _ => {
                 toks.push(format!("s{i}={}", showf(d.speed)));
                 toks.push(format!("p{i}={}", showf(d.speed_autopilot)));
@@ -137,7 +138,7 @@ pub fn probe(run: &mut Run, lines: &mut OskLines, id: &str, d: &Difficulty, map:
             format!("osu::verif::skill_probe on case {id}"),
         );
     }
-    for group in ["obj", "aim", "fl", "spd"] {
+    for group in ["obj", "aim", "fl", "spd", "rhy"] {
         run.count(&format!("lines:OSK-{group}"));
         run.line(id, request(group, &p, n_raw, n_diff), response(group, &p, n_diff));
     }
